@@ -214,7 +214,7 @@ def r6(ctx):
     cases = [
         (APPEND_BATCH, [APPEND_CS], "batch", CS_APPEND, "every block of the batch is appended to the changeset"),
         (BS_APPEND, None, "batch", None, "every block of the batch is copied into the data write"),
-        (MT_COMMIT, None, "changeset.nodes", None, "every node of a committed changeset becomes an unflushed node"),
+        (MT_COMMIT, None, "changeset.nodes", "IntMap::<V>::insert", "every node of a committed changeset becomes an unflushed node"),
         (MT_FLUSH_NODES, None, "unflushed", SI_CONTENT, "every unflushed node is written"),
         (BF_FLUSH, None, "unflushed", SI_CONTENT, "every dirty bitfield page is written"),
         (NEW, [OPLOG_OPEN], "tree_nodes", MT_ADD_NODE, "every tree node of a replayed entry is re-added"),
@@ -227,7 +227,7 @@ def r6(ctx):
         if not need(ctx, P, rule, "%s: loop over %s" % (fn.split("::")[-1], over), nx):
             continue
         if callee:
-            ss = [s for s in sites(fa, callee) if any(s in body and nx[0] in body for _, body, _ in fa.loops())]
+            ss = [s for s, t_ in fa.calls() if (callee_of(t_) == callee or (t_.get("callee") or "").endswith(callee)) and any(s in body and nx[0] in body for _, body, _ in fa.loops())]
         else:
             ss = [s for s, t in fa.calls() if (t.get("callee") or "").split("::")[-1] in ("extend_from_slice", "insert", "push") and any(s in body and nx[0] in body for _, body, _ in fa.loops())]
         if not need(ctx, P, rule, "%s: per-element action" % fn.split("::")[-1], ss):
